@@ -1040,7 +1040,8 @@ Record freq : Set := mkF {
 
 (* collective metadata calls, create/open, _enddef:
    e0 = error of this rank's own arguments that makes the dispatcher RETURN AT ONCE, before any
-        communication, also in safe mode (empty path in create/open, bad varid in del_att),
+        communication, also in safe mode (empty path in create/open; no metadata call does so since
+        commit 85d1c0b4 repaired ncmpi_del_att),
    e1 = error of this rank's own arguments found by the dispatcher (goto err_check),
    e2 = NC_EMULTIDEFINE_* code this rank raises when its arguments differ from rank 0's (0 if equal),
    e3 = error found by the driver *)
@@ -1176,7 +1177,8 @@ Definition gsum_of (sh : shared) (ks : list contrib) : gsum :=
 (* ------------------------------------------------------------------ building blocks *)
 Inductive outcome : Set :=
 | Ret (rc : Z) (stored : bool)   (* the call returns rc; stored = this rank's transfer was carried out *)
-| Crash.                         (* undefined behaviour (out-of-bounds access with a bad varid) *)
+| Crash.                         (* undefined behaviour; no path of the current sources produces it
+                                    (Proofs_Collective.never_crashes); before commit 080701ed ncmpi_fill_var_rec did *)
 
 Fixpoint rep (n : nat) (t : trace) : trace := match n with O => [] | S k => t ++ rep k t end.
 
@@ -1489,8 +1491,9 @@ Definition exec (c : cfg) (sh : shared) (a : api) (g : gsum) (root : bool) (l : 
           else (t, Ret (first_err (fill_drv_err2 f) (g_min3 g)) false)   (* keeps its own error *)
         else stop [(S_ncmpi_fill_var_rec_AR1, TComm)] (g_min1 g)
       else
-        (* without safe mode the dispatcher's error is NOT tested before the driver is entered *)
-        if f_global f || negb (f_valid f) then ([], Crash)
+        (* without safe mode the dispatcher returns its own error at once (no driver call); the driver
+           returns its own error (NC_ENOTFILL) before fill_var_rec: either way no collective is executed *)
+        if negb (fill_derr sh f =? 0) then stop [] (fill_derr sh f)
         else if fill_drv_err f =? 0 then (body, Ret 0 true) else stop [] (fill_drv_err f)
   (* ---- collective metadata calls ---- *)
   | A_meta m, LMeta q => meta_exec c sh g root (metadesc_of m) q
@@ -1654,7 +1657,7 @@ Definition model_sites : list (string * string * nat) := sort3 (map site_info al
      put (var/var1/vara/vars/varm/vard): 1 = reaches the numrecs Allreduce of put_varm / getput_vard
          (no dispatcher-level error and the variable is a record variable), 0 = does not;
      varn: 1 = scalar variable (dispatcher takes the put_var/get_var path), 0 = varn path (wait);
-     fill_var_rec without safe mode: 1 = enters fill_var_rec, 0 = returns (or crashes) before;
+     fill_var_rec without safe mode: 1 = enters fill_var_rec, 0 = returns before;
      metadata calls / _enddef / create / open: 1 = returns before the first collective while the
          other ranks have collectives to execute, 0 = otherwise;
      everything else: 0. *)
@@ -1668,7 +1671,7 @@ Definition sync_class (c : cfg) (sh : shared) (a : api) (l : local) : nat :=
   | A_varn _, LReq r => if varn_scalar r then 1%nat else 0%nat
   | A_fill_var_rec, LFill f =>
       if c_safe c then 0%nat
-      else if f_global f || negb (f_valid f) || negb (fill_drv_err f =? 0) then 0%nat else 1%nat
+      else if negb (fill_derr sh f =? 0) || negb (fill_drv_err f =? 0) then 0%nat else 1%nat
   | A_meta m, LMeta q =>
       let early := negb (m_e0 q =? 0) || (negb (c_safe c) && negb (first_err (m_e1 q) (m_e3 q) =? 0)) in
       if early && (c_safe c || meta_hdr_global c sh (metadesc_of m)) then 1%nat else 0%nat
